@@ -175,6 +175,14 @@ RetChecks ==
          LET ws == WorkerIn(S, c.owner)
              x == CHOOSE x \in ws : TRUE
          IN <<
+           <<Line.code \in {0, 3} =>
+               LET same == {q \in Rng(S.queues) : q.prefix = c.prefix /\ q.platform = c.platform}
+                   qmax == CHOOSE q \in same : \A r \in same : r.size_class <= q.size_class
+                   invalid == /\ same # {}
+                              /\ ~\E q \in same : q.size_class = c.size_class
+                              /\ (qmax.may_be_removed \/ c.size_class > qmax.size_class \/ (qmax.size_class > 0 /\ c.size_class < 1))
+               IN invalid <=> Line.code = 3,
+             "C05:size-class-registration-rule-broken">>,
            <<(Line.code = 0 /\ Line.desired = "execute") =>
                (ws # {} /\ x[2].task # 0 /\ HasTask(S, x[2].task)), "C01:told-to-execute-without-assigned-task">>,
            <<(Line.code = 0 /\ Line.desired = "execute" /\ ws # {} /\ x[2].task # 0 /\ HasTask(S, x[2].task)) =>
